@@ -4,6 +4,7 @@
 import Driver.Decode
 import BqlVerif.Model.Pivot
 import Driver.CursorOps
+import Driver.NumberifyOps
 namespace Bql
 
 def showDesc (d : List (String × Ty)) : String :=
@@ -52,6 +53,7 @@ def handle (st : DState) (sx : Sexp) : DState × String :=
     (match decodeParams p, decodeSelect s with
      | some p, some s => (st, runSelect st.tables p s false)
      | _, _ => (st, "bad-op"))
+  | .list (.atom "numberify" :: _) => (st, (handleNumberify sx).getD "bad-op")
   | .list (.atom "cursor" :: _) => (st, (handleCursor sx).getD "bad-op")
   | .list [.atom "modelled-functions"] => (st, " ".intercalate modelledFunctions)
   | _ => (st, "bad-op")
